@@ -560,6 +560,10 @@ def report(pid, tier, seed, pdef, hs, results, extra_results, known, floors, wor
         if not mine:
             undecided.append("%s: vacuity guard: no obligation attributed to %s" % (hn, pid))
         n_h_dis = 0
+        # CBMC reports obligations behind a failed fatal check (a dereference outside its object) as UNKNOWN; when that
+        # failure is a listed known finding these are "not decided because of the known finding", not a broken run
+        has_known = any(o["status"] == "FAILURE" and match_known(known, pid, hn, o) for o in mine)
+        n_unknown_behind_known = 0
         for o in mine:
             n_obl += 1
             if o["status"] == "SUCCESS":
@@ -567,14 +571,22 @@ def report(pid, tier, seed, pdef, hs, results, extra_results, known, floors, wor
                 n_h_dis += 1
                 continue
             if o["status"] != "FAILURE":
+                if has_known:
+                    n_obl -= 1
+                    n_unknown_behind_known += 1
+                    continue
                 undecided.append("%s: obligation %s status %s" % (hn, o["name"], o["status"]))
                 continue
             k = match_known(known, pid, hn, o)
             if k:
                 n_obl -= 1
-                known_lines.append("KNOWN-FINDING: property=%s %s [harness %s, obligation %s]" % (pid, k["what"], hn, o["tag"]))
+                kl = "KNOWN-FINDING: property=%s %s [harness %s]" % (pid, k["what"], hn)
+                if kl not in known_lines:
+                    known_lines.append(kl)
                 continue
             violations.append((h, o))
+        if n_unknown_behind_known:
+            notes.append("%s: %d obligation(s) reported UNKNOWN by CBMC behind the known finding's failed fatal check are not counted" % (hn, n_unknown_behind_known))
         backends[r["solver"]] = backends.get(r["solver"], 0) + n_h_dis
         per_harness.append({"harness": hn, "status": "ok", "function_under_contract": h.get("enforce", []) + h.get("enforce_rec", []),
                             "callees_replaced_by_contract": h.get("replace", []),
